@@ -1,0 +1,16 @@
+//go:build verif
+
+// Contracts checked by /verif/govc (comment-only file; adds no code).
+
+package semver
+
+//@ opaque func validSemver(v string) bool = in_re(v, "^(0|[1-9]\\d*)\\.(0|[1-9]\\d*)\\.(0|[1-9]\\d*)(?:-((?:0|[1-9]\\d*|\\d*[a-zA-Z-][0-9a-zA-Z-]*)(?:\\.(?:0|[1-9]\\d*|\\d*[a-zA-Z-][0-9a-zA-Z-]*))*))?(?:\\+([0-9a-zA-Z-]+(?:\\.[0-9a-zA-Z-]+)*))?$")
+
+//@ func IsValid
+//@ props C20 C02
+//@ ensures[C20.semver-valid] result == validSemver(version)
+
+//@ func ComparePluginVersion
+//@ props C20
+//@ ensures[C20.compare] (result1 == nil) == (validSemver(v) && validSemver(w))
+//@ ensures[C20.compare] result1 == nil ==> result == semverCmp("v" + v, "v" + w)
